@@ -107,7 +107,22 @@ func (s *sym) stmt(st ast.Stmt) {
 		}
 	case *ast.SwitchStmt:
 		if x.Tag != nil {
-			s.unknown = append(s.unknown, "switch with a tag")
+			// a switch on a value (e.g. the negotiated version): its clauses are alternatives of one step; follow the
+			// default clause (or the first one)
+			s.note(x.Tag)
+			var pick *ast.CaseClause
+			for _, cc := range x.Body.List {
+				cl := cc.(*ast.CaseClause)
+				if pick == nil || cl.List == nil {
+					pick = cl
+				}
+			}
+			if pick != nil {
+				s.block(pick.Body)
+			}
+			if s.ctl == "break" {
+				s.ctl = ""
+			}
 			return
 		}
 		var def *ast.CaseClause
@@ -699,6 +714,60 @@ func (f *facts) flowTables(conn, tr *ast.File) string {
 		if fd := findFunc(tr, "connGroup", fn.name); fd != nil {
 			rows, unk := f.runScenariosFixed(fd, fn.preds, nil, map[string]bool{"leave-loop": true, "next-iteration": true}, poolClassify, poolEffect)
 			emit(fn.name+"Flow", rows, unk)
+		}
+	}
+
+	// the three small wrappers: (*Conn).saslHandshake, saslHandshakeRoundTrip, saslAuthenticateRoundTrip
+	wrapClassify := func(e ast.Expr) string {
+		if bx, ok := e.(*ast.BinaryExpr); ok {
+			l, r := src(f.fset, bx.X), src(f.fset, bx.Y)
+			neg := ""
+			if bx.Op == token.EQL {
+				neg = "!"
+			}
+			if (bx.Op == token.EQL || bx.Op == token.NEQ) && r == "nil" && strings.HasPrefix(l, "err") {
+				if last == "negotiate" {
+					return neg + "negotiateFailed"
+				}
+				return neg + "exchangeFailed"
+			}
+			if bx.Op == token.NEQ && strings.HasSuffix(l, ".ErrorCode") && r == "0" {
+				return "errorCodeInAnswer"
+			}
+		}
+		return ""
+	}
+	wrapEffect := func(n ast.Node) string {
+		switch x := n.(type) {
+		case *ast.CallExpr:
+			p := selPath(x.Fun)
+			switch {
+			case strings.HasSuffix(p, ".negotiateVersion") && len(x.Args) > 0:
+				last = "negotiate"
+				return "negotiate:" + src(f.fset, x.Args[0])
+			case strings.HasSuffix(p, ".writeOperation") || strings.HasSuffix(p, ".RoundTrip"):
+				last = "exchange"
+				return "exchange"
+			case p == "Error" || p == "makeError":
+				return "kafkaError"
+			}
+		case *ast.ReturnStmt:
+			return "return"
+		}
+		return ""
+	}
+	for _, fn := range []struct {
+		file         *ast.File
+		recv, name   string
+		lean         string
+		preds        []string
+	}{{conn, "Conn", "saslHandshake", "connSaslHandshakeFlow", []string{"negotiateFailed", "exchangeFailed", "errorCodeInAnswer"}},
+		{tr, "", "saslHandshakeRoundTrip", "saslHandshakeRoundTripFlow", []string{"exchangeFailed", "errorCodeInAnswer"}},
+		{tr, "", "saslAuthenticateRoundTrip", "saslAuthenticateRoundTripFlow", []string{"exchangeFailed", "errorCodeInAnswer"}}} {
+		if fd := findFunc(fn.file, fn.recv, fn.name); fd != nil {
+			last = ""
+			rows, unk := f.runScenarios(fd, fn.preds, wrapClassify, wrapEffect)
+			emit(fn.lean, rows, unk)
 		}
 	}
 
